@@ -410,6 +410,15 @@ func VerifPkgSlices() map[string][2]int {
 	}
 }
 
+// VerifPkgState renders the contents of the package level values a conversation could modify by accident
+// (byte slices used as prefixes and markers, the group constants): they must never change after init.
+func VerifPkgState() string {
+	return fmt.Sprintf("queryMarker=%x errorMarker=%x msgMarker=%x defaultResentPrefix=%x whitespaceTagHeader=%x dsaKeyType=%x v2frag=%x v3frag=%x fragSep=%x fragItagSep=%x p=%x pMinusTwo=%x q=%x g1=%x",
+		queryMarker, errorMarker, msgMarker, defaultResentPrefix, whitespaceTagHeader, dsaKeyType,
+		otrv2FragmentationPrefix, otrv3FragmentationPrefix, fragmentSeparator, fragmentItagsSeparator,
+		p.Bytes(), pMinusTwo.Bytes(), q.Bytes(), g1.Bytes())
+}
+
 // VerifErrClass classifies an error the way the harness compares it: nil, conflict, err.
 func VerifErrClass(err error) string {
 	if err == nil {
